@@ -4,7 +4,9 @@ from __future__ import annotations
 import typing
 from typing import Any, Dict, List
 
-from lib.pylive import Live
+import os
+
+from lib.pylive import REPO, Live
 from lib.report import Run
 from lib.sweeps import decl_type, norm_decl, root_inputs
 from lib.tables import check_classes
@@ -71,6 +73,29 @@ def main(argv: List[str]) -> int:
             if loss:
                 run.violation(f"roundtrip:{d.pyname}:{loss.split(':')[0]}", f"round trip of a valid {d.pyname} is lossy: {loss}", {"input": j, "unstructured": back, "expected": norm_decl(mm, d, j)}, True)
                 break
+    # ---- the same witnesses under `python -O` (assertions compiled away): the results must not change
+    import subprocess
+
+    from lib.report import VERIF as _VERIF
+
+    def probe(flags):
+        env = dict(os.environ, VERIF_REPO=REPO, PYTHONDONTWRITEBYTECODE="1")
+        p = subprocess.run(["/venv/bin/python"] + flags + [os.path.join(_VERIF, "tools", "roundtrip_probe.py")], capture_output=True, text=True, env=env, timeout=600)
+        return {tuple(l.split()[:2]): " ".join(l.split()[2:]) for l in p.stdout.splitlines() if len(l.split()) >= 4}, p.stderr[-400:]
+
+    import concurrent.futures as _cf
+
+    with _cf.ThreadPoolExecutor(max_workers=2) as ex:
+        (normal, err_n), (opt, err_o) = ex.map(probe, ([], ["-O"]))
+    if not normal or not opt:
+        run.crash(f"round-trip probe produced no output (normal: {len(normal)}, -O: {len(opt)}): {(err_n or err_o)[-300:]}")
+    o_cases = 0
+    for key, res in normal.items():
+        o_cases += 1
+        if opt.get(key) != res:
+            run.violation(f"roundtrip:-O:{key[0]}", f"under `python -O` the {'maximal' if key[1] == '1' else 'minimal'} witness of {key[0]} gives '{opt.get(key)}' instead of '{res}'", {"class": key[0], "normal": res, "optimised": opt.get(key), "replay": "python -O tools/roundtrip_probe.py vs python tools/roundtrip_probe.py"}, True)
+            if len([v for v in run.violations if v["key"].startswith("roundtrip:-O:")]) >= 10:
+                break
     run.assume(*U.ASSUMPTIONS, "per-class (un)structure functions behave as the cattrs rows of DESIGN 2.4 (assumed; the root sweep exercises them on every class)", "the remaining leaves of the class lemma (defaults, validators, omit rule) are C04 / C10 / C11 obligations")
     return run.finish(
         {
@@ -86,6 +111,7 @@ def main(argv: List[str]) -> int:
             "table_obligations": n1,
             "alias_roots": n2,
             "bounded_root_sweep_inputs": sweep,
+            "python_O_cases": o_cases,
             "cross_check": cov.get("cross_check"),
             "samples": cov["samples"][:6],
             "notes": run.notes,
